@@ -115,6 +115,29 @@ Proof.
   destruct H as [Hc Hp]. cbn [app]. rewrite words_from_ws by exact Hc. apply IH. exact Hp.
 Qed.
 
+Lemma words_from_only_ws : forall pad cur, forallb is_ws pad = true ->
+  words_from cur pad = match cur with [] => [] | _ => [cur] end.
+Proof.
+  induction pad as [|c pad IH]; intros cur H; [reflexivity|]. cbn [forallb] in H. apply andb_true_iff in H. destruct H as [Hc Hp].
+  cbn [words_from]. rewrite Hc. destruct cur as [|x cur]; [apply (IH [] Hp)|]. rewrite (IH [] Hp). reflexivity.
+Qed.
+
+Lemma words_from_app_ws : forall s pad cur, forallb is_ws pad = true -> words_from cur (s ++ pad) = words_from cur s.
+Proof.
+  induction s as [|c s IH]; intros pad cur H.
+  - cbn [app]. rewrite (words_from_only_ws pad cur H). reflexivity.
+  - cbn [app words_from]. destruct (is_ws c).
+    + destruct cur as [|x cur]; rewrite (IH pad [] H); reflexivity.
+    + apply IH. exact H.
+Qed.
+
+Theorem L_blanks_around_do_not_matter : forall pad s pad', forallb is_ws pad = true -> forallb is_ws pad' = true ->
+  norm_ws (pad ++ s ++ pad') = norm_ws s.
+Proof.
+  intros pad s pad' H H'. rewrite (L_leading_blanks_do_not_matter pad (s ++ pad') H). unfold norm_ws.
+  rewrite (words_from_app_ws s pad' [] H'). reflexivity.
+Qed.
+
 (* non-vacuity: a number written with a comment in the middle, blanks around it, indentation between the elements *)
 Example trim_example :
   let t := XEl (S "math") None [XText [10; 32]; XEl (S "mn") None [XText [32; 49]; XComment; XText [50; 10]]; XText [10]; XPI] in
